@@ -247,12 +247,29 @@ def run_ob(u, ob, inst, extra_defs, tier, use_cache=True, want_trace=True, reach
         m = re.search(r"function '(\w+)' is not declared", se + so)
         return dict(base, status='error', reason='implicit declaration of %s in the lowered unit (missing prototype / callee not lowered)' % (m.group(1) if m else '?'),
                     wall_s=time.time() - t0, cmds=cmds)
-    dfcc = o.get('enforce') or o.get('replace') or ('loops' in ob.flags)
+    dfcc = o.get('enforce') or o.get('replace') or ('loops' in ob.flags) or ('autoreplace' in ob.flags)
     if dfcc:
         gi = ['goto-instrument', '--dfcc', entry]
         if o.get('enforce'):
             gi += ['--enforce-contract', o['enforce']]
-        for r_ in [x for x in o.get('replace', '').split(',') if x]:
+        repl = [x for x in o.get('replace', '').split(',') if x]
+        if 'autoreplace' in ob.flags and (o.get('enforce') or o.get('stubroot')):
+            stubs = set(info.get('autostubs', []))
+            explicit = list(repl)
+            repl = []
+            seen, todo = set(), [o.get('stubroot') or o['enforce']]
+            while todo:
+                f_ = todo.pop()
+                if f_ in seen:
+                    continue
+                seen.add(f_)
+                for c_ in info.get('calls_by_fn', {}).get(f_, []):
+                    if c_ in stubs or c_ in explicit:
+                        if c_ not in repl:
+                            repl.append(c_)
+                    else:
+                        todo.append(c_)
+        for r_ in repl:
             gi += ['--replace-call-with-contract', r_]
         if 'loops' in ob.flags:
             gi += ['--apply-loop-contracts']
@@ -333,7 +350,7 @@ def run_ob(u, ob, inst, extra_defs, tier, use_cache=True, want_trace=True, reach
         with open(cfile + '.tmp%d' % os.getpid(), 'w') as fh:
             json.dump(res, fh)
         os.replace(cfile + '.tmp%d' % os.getpid(), cfile)
-    if res.get('status') == 'pass' and os.environ.get('VERIF_KEEP') != '1':
+    if (res.get('status') == 'pass' or reach) and os.environ.get('VERIF_KEEP') != '1':
         shutil.rmtree(d, ignore_errors=True)
     return res
 
